@@ -27,7 +27,7 @@ inductive Out (β : Type) where
   | ok (v : β)
   | lenaTypeError            -- `lena.core.LenaTypeError`
   | typeError                -- builtin `TypeError` (an operation on a non-dictionary)
-  deriving Repr
+  deriving Repr, DecidableEq
 
 /-- `isinstance(v, dict)` with the dictionary -/
 def asDict : Val α → Option (Slots α)
@@ -281,5 +281,19 @@ end
 `contained`) that is nothing when `a == b` and the whole of `a` otherwise -/
 def diffSpec (lv : Int) (a b : Slots α) : Slots α :=
   if lv = 0 then (if a = b then emptyLike a else a) else diffSpecL lv a b
+
+/-! ## specification vocabulary: nesting depth -/
+
+mutual
+/-- nesting depth: 0 for a leaf, 1 for a dictionary of leaves (or an empty one), … -/
+def depthV : Val α → Nat
+  | .leaf _ => 0
+  | .dict l => 1 + depthL l
+/-- the largest depth of an item (0 when there is none) -/
+def depthL : Slots α → Nat
+  | [] => 0
+  | none :: r => depthL r
+  | some v :: r => max (depthV v) (depthL r)
+end
 
 end Lena.C07
